@@ -473,3 +473,7 @@ V("c06-rgb-name-original", "C06", CO, "            return cls(triplet.rgb, Color
 V("c06-benign-rgb-name-fstring", "C06", CO, "            return cls(triplet.rgb, ColorType.TRUECOLOR, triplet=triplet)\n", '            return cls(f"rgb({triplet.red},{triplet.green},{triplet.blue})", ColorType.TRUECOLOR, triplet=triplet)\n', None)
 V("c06-benign-rgb-no-space-regex", "C06", CO, "rgb\\(([\\d\\s,]+)\\)$", "rgb\\(([\\d,]+)\\)$", None)
 V("c16-array-typecode-bare", "C16", "rich/pretty.py", 'return (f"array({_object.typecode!r}, [", "])", f"array({_object.typecode!r})")', 'return (f"array({_object.typecode}, [", "])", f"array({_object.typecode})")', "R16.12")
+TB = "rich/traceback.py"
+V("c17-lexer-guess-unprotected", "C17", TB, '        try:\n            lexer_name = (\n                cls.LEXERS.get(ext) or guess_lexer_for_filename(filename, code).name\n            )\n        except ClassNotFound:\n            lexer_name = "text"\n        return lexer_name\n', '        lexer_name = (\n            cls.LEXERS.get(ext) or guess_lexer_for_filename(filename, code).name\n        )\n        return lexer_name\n', "R17.11")
+V("c17-lexer-guess-reraises", "C17", TB, '        except ClassNotFound:\n            lexer_name = "text"\n', '        except ClassNotFound:\n            raise\n', "R17.11")
+V("c17-benign-lexer-guess-return", "C17", TB, '        except ClassNotFound:\n            lexer_name = "text"\n        return lexer_name\n', '        except ClassNotFound:\n            return "text"\n        return lexer_name\n', None)
